@@ -291,3 +291,8 @@ PROPS["C02"].update({"lean": ["DM.Props.C02"], "gens": ["c02", "c02p"],
 PROPS["C14"].update({"lean": ["DM.Props.C14"],
     "explanation": PROPS["C14"]["explanation"] + " Theorems (DM/Props/C14.lean) over the two per-character tables regenerated on every run: latin1_agrees_iso8859_1, latin1_inverse_l / latin1_inverse_r (the helpers are mutually inverse on their domains, for whole strings).",
     "level_text": "Partial proof (Latin-1 helpers) + exploration with specification oracle, exhaustive over one-character strings."})
+
+PROPS["C01"].update({"lean": ["DM.Props.C01"],
+    "explanation": "Theorem pipeline_roundtrip (DM/Props/C01.lean): for every size and every vector of data codewords of the size's capacity, encode_error -> new_with_codewords -> bitmap -> try_from_bits -> codewords -> decode_error returns exactly the data codewords and the size (composition of the C06, C07, C08 theorems with clean_word_unchanged: the decoder's syndromes equal the specification's, so a word whose blocks are codewords passes the Reed-Solomon decoder untouched). Hence DataMatrix::decode(bitmap) and decode_data(data codewords) agree on every encoder output. The data-level half (decode_data inverts the mode encoders for every plan) is decided by the sweep: decode_data and DataMatrix::decode on the real code must return the input, the independent reference decoder must decode the stream to the input, and the whole decoding pipeline is compared with the composition of the Lean models (also on symbols with a few damaged modules).",
+    "level_text": "Partial proof: the symbol-level half of the round trip is a theorem for all sizes and contents; the data-level half is exploration with a specification oracle.",
+    "unproved": ["encode_conformant: forall plans, decode_data (Encode.run plan input) = input (mode encoders not yet modelled)"]})
